@@ -858,6 +858,34 @@ func containmentCase(rt *rapid.T, sc *scenario) {
 			sig = "allocates-announced-length:http1-request-content-length"
 		case announcedResp:
 			sig = "allocates-announced-length:http1-response-content-length"
+		default:
+			// an xprotocol listener: which piece of garbage does it, and where? Each piece is handed to the protocol's
+			// decoder alone (the codec part's allocation oracle, with its re-measurement and allocation site): the
+			// signature then names the call site, so that a listed root cause (known.d) is told from any other one
+			var decoders []string
+			switch sc.Proto {
+			case "bolt", "dubbo":
+				decoders = []string{sc.Proto}
+			case "Auto":
+				decoders = []string{"bolt", "dubbo"}
+			}
+			for _, dp := range decoders {
+				var pieces [][]byte
+				for _, cl := range sc.Clients {
+					for _, g := range cl {
+						pieces = append(pieces, g.Bytes)
+					}
+				}
+				for _, g := range sc.Upstream {
+					pieces = append(pieces, g.Bytes)
+				}
+				for _, b := range pieces {
+					if r := checkDecode(&decodeCase{Part: partContain, Proto: dp}, b); r.fail != nil && strings.HasPrefix(r.fail.sig, dp+"/allocates-beyond-arrived-bytes:") {
+						sig = strings.TrimPrefix(r.fail.sig, dp+"/")
+						break
+					}
+				}
+			}
 		}
 		fail(sig, "the process allocated %d MiB during the case while all garbage together was %d bytes", delta>>20, sent)
 	}
